@@ -18,21 +18,26 @@ CONSTANTS Cap, Reserved, Unify, Kind, Backend, MinSeg0, FixedRewind,
           OwnedToo,       \* also the *_owned variants
           MinSegSet, IncSet, RewindSet, TruncSet, WithClear, WithLeak,
           WithReopen,     \* close + map_mut reopen of a file-backed arena as a call of the menu
+          HistView,       \* one step of history in the fingerprint (see `tag`)
           WithFit,        \* state-dependent request sizes: all of the remaining fresh space, and exactly / one less than the
                           \* size of each segment on the list (where an extent that is off by a few bytes shows)
           WithClone,      \* a second arena value (Clone) of the same arena: made, asked, allocated through, dropped
           Prefix,         \* scripted history applied before the free exploration starts (part of every driver)
           Emit
 
-VARIABLES st, hist
-vars == <<st, hist>>
-View == st
+VARIABLES st, hist,
+          tag    \* what kind of handle the last call released (owned?, padding, slack): with HistView the successors of a
+                 \* state are explored once per such kind, because the code paths that release an owned / padded / slack
+                 \* handle differ although they lead to the same abstract state
+vars == <<st, hist, tag>>
+View == IF HistView THEN <<st, tag>> ELSE <<st>>
 
 ApplyAll(s0, ops) ==
   LET F[i \in 0..Len(ops)] == IF i = 0 THEN s0 ELSE Step(F[i - 1], ops[i], FixedRewind).st IN F[Len(ops)]
 
 Init == /\ st = ApplyAll(New(Kind, Backend, Unify, Reserved, Cap, MinSeg0), Prefix)
         /\ hist = Prefix
+        /\ tag = <<>>
         /\ TLCSet(42, 0)
 
 OwnedFlags == IF OwnedToo THEN {FALSE, TRUE} ELSE {FALSE}
@@ -48,7 +53,8 @@ RewindOk(s, op) ==
 
 FitOps(s) ==
   (IF s.cap - s.cursor > 0 THEN {[k |-> "ab", n |-> s.cap - s.cursor, o |-> FALSE]} ELSE {})
-  \cup UNION {{[k |-> "ab", n |-> s.fl[i][2] - d, o |-> FALSE] : d \in {d \in {0, 1} : s.fl[i][2] - d > 0}} : i \in 1..Len(s.fl)}
+  \* (a little more than the segment holds must be refused -- or served by a larger one)
+  \cup UNION {{[k |-> "ab", n |-> s.fl[i][2] - d, o |-> FALSE] : d \in {d \in {-7, -1, 0, 1} : s.fl[i][2] - d > 0}} : i \in 1..Len(s.fl)}
 
 Menu(s) ==
   (IF s.nextId <= MaxAllocs + Len(Prefix) /\ Cardinality(DOMAIN s.live) < MaxLive
@@ -125,6 +131,9 @@ Next ==
        /\ ReportModel(P, Append(hist, op))
        /\ st' = r.st
        /\ hist' = Append(hist, op)
+       /\ tag' = IF op.k \in {"drop", "dealloc", "leak"} /\ op.h \in DOMAIN st.live
+                 THEN LET hr == st.live[op.h] IN <<op.k, hr.owned, hr.det, hr.po - hr.mo, hr.ms - hr.ps>>
+                 ELSE <<>>
        /\ (Emit => PrintT(ToJson([drv |-> hist'])))
 
 Spec == Init /\ [][Next]_vars
